@@ -228,7 +228,11 @@ unit(id="binop.exec", src=BINOP, path=[("impl", "Exec for BinOperation"), ("fn",
      fragments=["opspecs", "opstubs", "semantics"],
      # annotation of the closure of plain `=` (Verus gives un-annotated closures no callable spec and rejects `_` parameters):
      # parameter types, a named result and `ensures y == b` are added, the body `b` is untouched
-     rewrites=[("|_, b| b", "|_a: Variable, b: Variable| -> (y: Variable) ensures y == b { b }")],
+     # (a rule with identifier holes: any closure of two plain parameters whose body is its second parameter)
+     rewrites=[(r"re:\|(_[a-z_0-9]*|[a-z][a-z_0-9]*), ([a-z][a-z_0-9]*)\| \2(?![a-z_0-9(.\[])",
+                r"|_a: Variable, \2: Variable| -> (y: Variable) ensures y == \2 { \2 }")],
+     # without the annotation the closure has no callable specification: the clause is then undecidable, not false
+     needs_rewrite={"binop.exec.plain_assignment_yields_the_value": "ensures y =="},
      requires=[f"(self.op is And || self.op is Or) && {L} is Ok ==> {L}->Ok_0 is Bool",
                "(" + " || ".join(f"self.op is {v}" for v in ["Assign"] + [a for a, _m in
                    [("AssignAdd", 0), ("AssignSubtract", 0), ("AssignMultiply", 0), ("AssignDivide", 0), ("AssignModulo", 0),
